@@ -210,6 +210,30 @@ def t_derive_halfopen(f):
     return [Derive(**{fresh("p_h"): (C(i[1]) > 0) & (C(i[1]) <= 3), fresh("p_g"): (C(i[0]) >= 0) & (C(i[0]) < 2) | (C(i[1]) == None)})]  # noqa: E711
 
 
+def let_twice_pairs(prog):
+    """a prefix used twice: inlined twice (base) versus named with let and referenced twice (rewritten)"""
+    main = prog.main
+    for i in range(2, len(main) + 1):
+        pre = main[:i]
+        if qualified(pre) or any(t.k in ("join", "append") for t in pre):
+            continue
+        try:
+            f = Frame(pre)
+        except Exception:
+            continue
+        ints = f.ints()
+        if len(ints) < 2 or sum(1 for c in f.cols if c.name == ints[0]) != 1:
+            continue
+        k, v = ints[0], ints[1]
+        sub = lambda src: src + [Group([C(k)], Aggregate(m_=Fn("max", C(v))))]
+        base = Prog(pre + [Join(sub(list(pre)), "==" + k, side="left", alias="y")] + [Select(f"{'t' if False else ''}{k}" if False else C(k) if False else "y.m_")])
+        rew = Prog([From("pre_x"), Join(sub([From("pre_x")]), "==" + k, side="left", alias="y"), Select("y.m_")], lets=[("pre_x", pre)])
+        yield (f"let-twice@{i}", base, rew)
+        base2 = Prog(pre + [Join(sub(list(pre)), "==" + k, side="left", alias="y")])
+        rew2 = Prog([From("pre_x"), Join(sub([From("pre_x")]), "==" + k, side="left", alias="y")], lets=[("pre_x", pre)])
+        yield (f"let-twice-all@{i}", base2, rew2)
+
+
 def family_c06(tier, seed):
     import random
     alpha = dict(ALPHABET, filter_and=t_filter_and, derive_lit=t_derive_lit, filter_halfopen=t_filter_halfopen, filter_closed=t_filter_closed,
@@ -233,10 +257,13 @@ def family_c06(tier, seed):
             out.append((f"{tag}|{kind}", (prog, rw, kind)))
             # compositions: a second rewrite of a different kind applied to the rewritten program (DSL-level rewrites
             # only; let-style rewrites are applied last because they rename the prefix)
-            if tier == "thorough" and isinstance(rw, Prog) and not rw.lets and not rw.into and rnd2.random() < 0.02:
+            if tier == "thorough" and isinstance(rw, Prog) and not rw.lets and not rw.into and rnd2.random() < 0.01:
                 for kind2, rw2 in rewrites_of_keep(rw):
                     if kind2.split("@")[0] != kind.split("@")[0]:
                         out.append((f"{tag}|{kind}+{kind2}", (prog, rw2, f"{kind.split('@')[0]}+{kind2}")))
+    for tag, prog in bases:
+        for kind, b2, r2 in let_twice_pairs(prog):
+            out.append((f"{tag}|{kind}", (b2, r2, kind)))
     if tier == "quick":
         rnd = random.Random(seed)
         rnd.shuffle(out)
